@@ -517,3 +517,39 @@ Example ex_sorted :
                 [[CS [122]; CS [121]; CS [120]]; [CI 30; CI 20; CI 10]; [CB true; CB false; CB true]] 3)
            (Some [107])).
 Proof. vm_compute. reflexivity. Qed.
+
+(* ------------------------------------------------------------------ inner_join on the two index columns *)
+
+(* self.inner_join(other), both indexed (any two index names; other may also hold a data column named
+   like self's index): the nested-loop join on self[si] == other[oi], other's remaining columns prefixed *)
+Theorem inner_join_on_indexes : forall self other (si oi : str) prefix,
+  wf self -> wf other -> In si (hdr self) -> In oi (hdr other) -> hdr self <> [] ->
+  NoDup (spec_join_header (hdr self) (hdr other) [oi] prefix) ->
+  exists b,
+    inner_join self other (Some [si]) (Some [oi]) prefix = Ok b /\ wf b /\
+    hdr b = spec_join_header (hdr self) (hdr other) [oi] prefix /\
+    rows b = spec_inner_join (hdr self) (rows self) (hdr other) (rows other) [si] [oi] /\
+    it_inner_join_index (mkIT self (Some si)) (mkIT other (Some oi)) prefix = activate b (Some si).
+Proof.
+  intros self other si oi prefix Hws Hwo Hsi Hoi Hne Hnd.
+  destruct (inner_join_nested_loop self other (Some [si]) (Some [oi]) prefix [si] [oi] Hws Hwo) as [b [Hb [Hwb [Hh Hr]]]].
+  - apply join_keys_explicit. reflexivity.
+  - discriminate.
+  - discriminate.
+  - constructor; [intros []|constructor].
+  - constructor; [intros []|constructor].
+  - intros c [Hc|[]]. subst. exact Hsi.
+  - intros c [Hc|[]]. subst. exact Hoi.
+  - exact Hne.
+  - exact Hnd.
+  - exists b. split; [exact Hb|]. split; [exact Hwb|]. split; [exact Hh|]. split; [exact Hr|].
+    unfold it_inner_join_index. cbn [iname base].
+    exact (f_equal (fun r => bind r (fun b0 => activate b0 (Some si))) Hb).
+Qed.
+
+Theorem inner_join_needs_both_indexes : forall self other prefix,
+  iname self = None \/ iname other = None -> it_inner_join_index self other prefix = Er E_Value.
+Proof.
+  intros self other prefix [H|H]; unfold it_inner_join_index; rewrite H; [reflexivity|].
+  destruct (iname self); reflexivity.
+Qed.
